@@ -142,7 +142,8 @@ Json gen_op(Rng &g, unsigned nshared)
                                   "expand", "add", "mul", "pow",  "sub",  "div",
                                   "fn",   "copy", "dummy", "local", "hash", "str",
                                   "eq",   "add",  "mul",  "args", "has",  "evalf",
-                                  "xreplace", "free_symbols", "locked"};
+                                  "xreplace", "free_symbols", "locked", "expand_pow",
+                                  "expand_pow"};
     std::string k = kinds[g.below(sizeof kinds / sizeof kinds[0])];
     o["op"] = k;
     // operands: mostly shared expressions, sometimes earlier local results
@@ -156,6 +157,8 @@ Json gen_op(Rng &g, unsigned nshared)
         o["v"] = (long long)g.below(4);
     if (k == "pow")
         o["n"] = (long long)g.range(-2, 4);
+    if (k == "expand_pow") // expand((a + b + ...)^n): multinomial expansion
+        o["n"] = (long long)g.range(2, 7);
     if (k == "fn") {
         static const char *fs[] = {"sin", "cos", "tan", "exp", "log", "abs", "sqrt",
                                    "asin", "atan", "sinh", "gamma", "sign", "cosh"};
@@ -495,7 +498,24 @@ std::string do_op_raw(const Json &o, const simx::Pool &shared, simx::Pool &local
         r = xreplace(a, d);
     } else if (k == "expand")
         r = expand(a);
-    else if (k == "add")
+    else if (k == "expand_pow") {
+        // a sum of a few distinct terms raised to a small power, expanded:
+        // every (number of terms, exponent) pair goes through pow_expand
+        // (symbols and at most one small shared operand: the expansion of a
+        // power of an arbitrary shared expression grows without bound)
+        size_t nt = 2 + (size_t)(o.geti("a") % 4);
+        vec_basic terms;
+        for (size_t i = 0; i < nt; i++)
+            terms.push_back(simx::sym_n((int64_t)i + o.geti("b") % 3));
+        if (is_a<Symbol>(*a) || is_a_Number(*a) || is_a<Sin>(*a) || is_a<Cos>(*a))
+            terms.push_back(a);
+        else
+            terms.push_back(integer(1));
+        long n = (long)std::max<int64_t>(2, std::min<int64_t>(6, o.geti("n", 2)));
+        if (nt >= 5)
+            n = std::min<long>(n, 4);
+        r = expand(pow(add(terms), integer(n)));
+    } else if (k == "add")
         r = add(a, b);
     else if (k == "mul")
         r = mul(a, b);
